@@ -4,10 +4,13 @@
    non-default defenses, extras; associations with class, fields, member ids, extras; attackers with id, name, entry
    points); encode = Model._to_dict after the file codec (integer keys become decimal strings in JSON; YAML keeps
    integers, for which int() is the identity); decode = the reading part of Model._from_dict.
-   PARTIAL: that the loader then rebuilds, through add_asset / add_association / add_attacker, a model whose content
-   is the decoded one is covered by the C05 theorems (explicit ids honoured, no renaming of unique names) and by the
-   correspondence run on real files, not by a theorem of its own. *)
-From MT Require Import Prelude Codec ModelIO.
+   The rebuild through the API (add_asset with the stored id, add_association on the assets found by id,
+   add_attacker) is ModelLoad.load, a sequence of steps of the state machine of C05; content_of is what _to_dict reads
+   from a model state. C07_rebuild / C07_save_load: every loadable content is rebuilt into a coherent model with
+   exactly that content. PARTIAL: that the content of every model reachable through the API is loadable (distinct ids
+   and names, non-empty duplicate-free association ends on live assets, no repeated link, named attackers) is checked
+   on every model of the correspondence run, not proved for all histories; the YAML / JSON text layer is trusted. *)
+From MT Require Import Prelude Codec ModelIO Model ModelOps ModelInv ModelLoad ModelLoadThm.
 
 Theorem C07_key_roundtrip : forall z, Z_of_string (string_of_Z z) = Some z.
 Proof. exact Z_of_string_of_Z. Qed.
@@ -33,6 +36,26 @@ Theorem C07_any_order : forall n entries cs ts assets,
 Proof. exact decode_assets_any_order. Qed.
 Print Assumptions C07_any_order.
 
+(* the loader, as a run of the model API from the empty model, rebuilds every loadable content exactly *)
+Theorem C07_rebuild : forall defaults c, loadable defaults c = true ->
+  exists s, load defaults c = (s, MOk) /\ MI s /\ content_of defaults (c_name c) s = c.
+Proof. exact load_loadable. Qed.
+Print Assumptions C07_rebuild.
+
+(* save, then load: document codec and rebuild composed *)
+Theorem C07_save_load : forall defaults c, loadable defaults c = true -> wf_content c = true ->
+  exists c' s, decode (encode c) = Some c' /\ load defaults c' = (s, MOk) /\ MI s /\ content_of defaults (c_name c) s = c.
+Proof. exact save_then_load. Qed.
+Print Assumptions C07_save_load.
+
+(* the same for any model state whose content is loadable: the reloaded model is coherent and has the same content *)
+Theorem C07_state_save_load : forall defaults n s,
+  loadable defaults (content_of defaults n s) = true -> wf_content (content_of defaults n s) = true ->
+  exists c' s', decode (encode (content_of defaults n s)) = Some c' /\ load defaults c' = (s', MOk) /\ MI s' /\
+                content_of defaults n s' = content_of defaults n s.
+Proof. exact state_save_load. Qed.
+Print Assumptions C07_state_save_load.
+
 Definition exC : content := mkC "m"
   [ mkCA 4%Z "x" "Aa" [("df", 512%Z)] []; mkCA 0%Z "y:0" "Bb" [] [("k", JInt 1%Z)]; mkCA (-2)%Z "z" "Aa" [] [] ]
   [ mkCC "Pp" "pa" [4%Z; 0%Z] "pb" [(-2)%Z] [("note", JStr "n")]; mkCC "zz" "qa" [0%Z] "qb" [4%Z] [] ]
@@ -40,4 +63,8 @@ Definition exC : content := mkC "m"
 Example C07_nonvacuous : wf_content exC = true /\ decode (encode exC) = Some exC /\
   decode (JDict [("metadata", JDict [("name", JStr "m")]); ("assets", JDict [("4", JStr "Aa"); ("0", JStr "Bb")])])
   = Some (mkC "m" [mkCA 4%Z "Aa:4" "Aa" [] []; mkCA 0%Z "Bb:0" "Bb" [] []] [] []).
+Proof. vm_compute. auto. Qed.
+Definition exTbl := defaults_of [("Aa", [("df", 0%Z); ("dg", 1024%Z)]); ("Bb", [])].
+Example C07_rebuild_nonvacuous : loadable exTbl exC = true /\ snd (load exTbl exC) = MOk /\
+  content_eqb (content_of exTbl "m" (fst (load exTbl exC))) exC = true.
 Proof. vm_compute. auto. Qed.
